@@ -89,6 +89,8 @@ def hw_ctx(i):
         return member, miss
 
     atoms = []  # (parent rows tuple, row)
+    from annet.vendors import registry_connector as _rc
+    vprefix = _rc.get().match(hw).reverse
 
     def walk(raw_tree, crules, parents):
         for (_, attrs) in raw_tree.items():
@@ -104,6 +106,12 @@ def hw_ctx(i):
                 atoms.append((parents, r_))
             if miss:
                 atoms.append((parents, miss))
+            if attrs["type"] != "ignore" and not attrs["children"]:
+                # the literal opposite of a default line (`shutdown` for `no shutdown`): it does not match the rule's
+                # pattern, so the default is still added beside it
+                opp = row[len(vprefix) + 1:] if row.startswith(vprefix + " ") else vprefix + " " + row
+                if rule["regexp"].match(opp) is None:
+                    atoms.append((parents, opp))
             if attrs["children"] and rows:
                 walk(attrs["children"], rule["children"], parents + (rows[-1],))
                 if miss:
@@ -202,6 +210,13 @@ def check_pair(c, t, u):
     # defaults that completion added on BOTH sides (their parent exists in both): absent from the device text and
     # from the generator output, so nothing may be emitted for them
     both = set(added_t) & set(added_u)
+    # a default whose literal opposite is written explicitly on one side is not "absent from both texts": removing or adding
+    # that explicit line legitimately sends the default's command
+    explicit = set(_paths(t)) | set(_paths(u))
+
+    def _opp(row):
+        return row[len(c["prefix"]) + 1:] if row.startswith(c["prefix"] + " ") else c["prefix"] + " " + row
+    both = set(d for d in both if d[:-1] + (_opp(d[-1]),) not in explicit)
     try:
         _, patch = api._diff_and_patch(c["dev"], mt, mu, None, None, False)
         paths = [tuple(p) for p in c["fmt"].cmd_paths(patch)]
